@@ -64,6 +64,7 @@ type VirtualISO struct {
 
 	rootDir           dirItemList // must be alphabetically sort by path
 	filesSizeSectors  sizeSectors // sum of file sizes in sectors
+	openedFile        *fileItem   // the only member file that may be open at the moment
 	pathTable         pathTable   // used in network ps3 mode, testing isn't easy because most desktop OSes ignore it
 	pathTableJoliet   pathTable
 	volumeDescriptors [volumeDescriptorsCount]volumeDescriptor
@@ -723,6 +724,15 @@ func (viso *VirtualISO) read(buf []byte, off int64) (int64, error) {
 				return read, fmt.Errorf("offset (%d) greater than padded file %s location(%d)+size(%d)",
 					offset, fileItem.path, fileItem.rLBA.bytes(), fileItem.size.sectors().bytes())
 			}
+
+			// keep only the member that is being read open: one descriptor per image, not one per file of the tree
+			if viso.openedFile != nil && viso.openedFile != fileItem {
+				if err := viso.openedFile.closeOpened(); err != nil {
+					return read, fmt.Errorf("failed to close %s: %w", viso.openedFile.path, err)
+				}
+			}
+
+			viso.openedFile = fileItem
 
 			f, err := fileItem.openOnDemand(viso.fs)
 			if err != nil {
